@@ -218,6 +218,14 @@ class Impl:
         self.global_setting = settings.global_setting
         self.lark_exc = lark_exc
         self.loaded = None
+        # resolved once: a renamed attribute is a machinery error (exit 2), never a verdict
+        self.api_print_term, self.api_print_type, self.api_print_thm = printer.print_term, printer.print_type, printer.print_thm
+        self.api_export_proof_item = printer.export_proof_item
+        self.api_parse_term, self.api_parse_type, self.api_parse_thm = parser.parse_term, parser.parse_type, parser.parse_thm
+        self.api_parse_proof_rule = parser.parse_proof_rule
+        self.term_ast = pprint.term_ast
+        self.term_parser = parser.term_parser
+        self.parse_errors = (lark_exc.LarkError,)
 
     def load(self, name):
         if self.loaded is None:
@@ -230,7 +238,7 @@ class Impl:
         self.loaded = name
 
     def clear_memo(self):
-        self.pprint.term_ast.clear()
+        self.term_ast.clear()
 
     @staticmethod
     def flatten(res, hl, ll):
@@ -246,17 +254,17 @@ class Impl:
     def print_term(self, t, setting):
         u, ll, hl = setting
         with self.global_setting(unicode=u, line_length=ll, highlight=hl):
-            return self.flatten(self.printer.print_term(t), hl, ll)
+            return self.flatten(self.api_print_term(t), hl, ll)
 
     def print_type(self, T, setting):
         u, ll, hl = setting
         with self.global_setting(unicode=u, line_length=ll, highlight=hl):
-            return self.flatten(self.printer.print_type(T), hl, None)   # print_type forces line_length=None
+            return self.flatten(self.api_print_type(T), hl, None)   # print_type forces line_length=None
 
     def print_thm(self, th, setting):
         u, ll, hl = setting
         with self.global_setting(unicode=u, line_length=ll, highlight=hl):
-            res = self.printer.print_thm(th)
+            res = self.api_print_thm(th)
         return self.flatten(res, hl, None)      # a sequent is printed on one line whatever the line width
 
     def set_context(self, vars, svars=None):
@@ -265,6 +273,24 @@ class Impl:
     def quiet(self, f, *a):
         with contextlib.redirect_stdout(io.StringIO()):
             return f(*a)
+
+
+def has_internal_stvar(t):
+    """A schematic type variable named like the internal variables of type inference (?'_t<n>)."""
+    from harness.props import c07_gen as G
+    found = []
+
+    def chk(T):
+        if T.is_stvar() and T.name.startswith("_t"):
+            found.append(T.name)
+        return T
+    G.map_types(t, lambda T: G.map_type(T, chk))
+    return bool(found)
+
+
+def rename_internal_stvars(T):
+    from harness.props import c07_gen as G
+    return G.map_type(T, lambda U: G.STVar("u" + U.name[2:]) if (U.is_stvar() and U.name.startswith("_t")) else U)
 
 
 def free_names(t, vars=None, svars=None):
@@ -298,6 +324,7 @@ class Oracle:
         self.ctx, self.impl, self.sig = ctx, impl, sig
         self.keywords = set(keywords)
         self.nfail = 0
+        self.limit = 60          # seconds per print / parse call
 
     def roundtrip(self, t, setting):
         """Returns (failure kind or None, text, detail)."""
@@ -306,7 +333,7 @@ class Oracle:
         vars, svars = free_names(t)
         impl.set_context(vars, svars)
         try:
-            with time_limit(60):
+            with time_limit(self.limit):
                 text = impl.print_term(t, setting)
         except Timeout:
             raise
@@ -315,8 +342,8 @@ class Oracle:
         if not isinstance(text, str):
             return "print-not-text", None, repr(text)[:200]
         try:
-            with time_limit(60):
-                t2 = impl.quiet(impl.parser.parse_term, text)
+            with time_limit(self.limit):
+                t2 = impl.quiet(impl.api_parse_term, text)
         except Timeout:
             raise
         except Exception as e:  # noqa
@@ -330,18 +357,39 @@ class Oracle:
             return "eq-raises:" + type(e).__name__, text, repr(e)[:200]
         return None, text, None
 
-    def classify(self, t):
+    def classify(self, t, setting=None):
+        """Known-finding class of a failing term, or None.  A failure only counts as the known
+        identifier finding if the identifiers EXPLAIN it: the same term with the suspicious names
+        replaced by fresh ordinary names must round-trip under the same setting."""
+        from harness.props import c07_gen as G
         names = sorted(all_names(t))
         kw = [n for n in names if n in self.keywords]
+        cs = [n for n in names if n in self.sig.consts and n not in kw]
+        bad = [n for n in names if not re.fullmatch(r"[A-Za-z_][A-Za-z_0-9]*", n) and n not in kw and n not in cs]
+        setting = setting or (False, None, False)
+        internal = has_internal_stvar(t)
+        if not (kw or cs or bad or internal):
+            return None
+        mapping, k = {}, 0
+        for n in kw + cs + bad:
+            while True:
+                k += 1
+                fresh = "zq%d" % k
+                if fresh not in names and fresh not in self.sig.consts:
+                    break
+            mapping[n] = fresh
+        t_types = G.map_types(t, rename_internal_stvars) if internal else t
+        if internal and self.roundtrip(t_types, setting)[0] is None:
+            return "internal-type-variable-name"          # explained by the ?'_t<n> type variables alone
+        if not (kw or cs or bad):
+            return None
+        if self.roundtrip(G.rename_names(t_types, mapping), setting)[0] is not None:
+            return None       # still fails with ordinary names (and ordinary type variables): not a known finding
         if kw:
             return "reserved-word-identifier:" + kw[0]
-        cs = [n for n in names if n in self.sig.consts]
         if cs:
             return "identifier-shadowed-by-constant"
-        bad = [n for n in names if not re.fullmatch(r"[A-Za-z_][A-Za-z_0-9]*", n)]
-        if bad:
-            return "not-an-identifier"
-        return None
+        return "not-an-identifier"
 
     def check(self, t, settings, stream, nontrivial=True, extra=None):
         """Round trip under each setting; reports the first failure (minimised).  Returns True if all passed."""
@@ -360,7 +408,7 @@ class Oracle:
             kind2, text2, detail2 = self.roundtrip(small, setting)
             if kind2 is None:       # (only if the failure is history dependent)
                 small, kind2, text2, detail2 = t, kind, text, detail
-            cls = self.classify(small)
+            cls = self.classify(small, setting)
             key = cls or ("roundtrip:%s:%s" % (kind2, G.dump_term(small)))
             what = "theory %s, setting unicode=%s line_length=%s highlight=%s: %s prints as %r; %s %s" % (
                 self.sig.thy_name, setting[0], setting[1], setting[2], G.dump_term(small), text2, kind2, detail2 or "")
@@ -520,6 +568,16 @@ def stream_adversarial_names(ctx, impl, sig, oracle, n):
         gen = G.TermGen(rng, sig, names)
         T = gen.rand_type(1) if rng.random() < 0.5 else G.BoolType
         t = gen.gen(T, rng.randint(1, 3), [])
+        if rng.random() < 0.15:
+            # ?'_t<n> is the spelling of type inference's own variables (known finding if it breaks)
+            nm = "_t%d" % rng.randint(0, 1)
+            t_st = G.map_types(t, lambda U: G.map_type(U, lambda V: G.STVar(nm) if (V.is_tvar() and V.name == "a") else V))
+            try:
+                G.check_welltyped(sig, t_st)
+                t = t_st
+            except ValueError:      # an overloaded constant would sit at an undeclared instance: keep the original
+                pass
+            ctx.count("names:internal-stvar")
         oracle.check(t, [(False, None, False), (True, None, False)], "names", nontrivial=True)
         ctx.count("names:%s" % sig.thy_name)
 
@@ -555,7 +613,7 @@ def stream_library(ctx, impl, sig, oracle, thy_name, limit):
                 prop = " ".join(prop)
             try:
                 impl.context.set_context(None, vars=vars)
-                t = impl.quiet(impl.parser.parse_term, prop)
+                t = impl.quiet(impl.api_parse_term, prop)
                 impl.theory.thy.check_term(t)
             except Exception:  # noqa  (statement of a later definition, needs `defs` context, ...)
                 ctx.count("library:unparsed")
@@ -596,7 +654,7 @@ def stream_types(ctx, impl, sig, n):
         for setting in pick_settings(rng, i, full_every=4):
             try:
                 text = impl.print_type(T, setting)
-                T2 = impl.parser.parse_type(text)
+                T2 = impl.api_parse_type(text)
                 ok = G.ty_eq(T, T2) and T2 == T
                 detail = G.dump_type(T2)
             except Exception as e:  # noqa
@@ -611,7 +669,7 @@ def stream_types(ctx, impl, sig, n):
 # ---------------------------------------------------------------- sequents / instantiations / proof items
 def gen_small_term(ctx, rng, sig, oracle, T, names, depth=2):
     from harness.props import c07_gen as G
-    gen = G.TermGen(rng, sig, names, allow_svar=False)
+    gen = G.TermGen(rng, sig, names, allow_svar=True)
     t = gen.gen(T, depth, [])
     G.check_welltyped(sig, t)
     return t
@@ -640,7 +698,7 @@ def stream_thms(ctx, impl, sig, oracle, n):
             text = None
             try:
                 text = impl.print_thm(th, setting)
-                th2 = impl.quiet(impl.parser.parse_thm, text)
+                th2 = impl.quiet(impl.api_parse_thm, text)
                 ok = len(th2.hyps) == len(hyps) and all(G.term_eq(a, b) for a, b in zip(th2.hyps, hyps)) and G.term_eq(th2.prop, prop)
                 detail = ""
             except Exception as e:  # noqa
@@ -656,90 +714,189 @@ def stream_thms(ctx, impl, sig, oracle, n):
 
 
 def stream_insts_items(ctx, impl, sig, oracle, n):
-    """Instantiations (`{x: t, ...}` via export_proof_item args) and exported proof items."""
+    """Instantiations and exported proof items: export_proof_item / parse_proof_rule.  Every argument
+    signature that a primitive rule or a registered macro declares is generated (rules are enumerated
+    from the registries, one to three per signature); instantiations carry a type part; items may have
+    schematic variables, a sequent, and a subproof (exported as further lines)."""
     from harness.props import c07_gen as G
     from typing import Tuple, List
     rng = ctx.rng("item/" + sig.thy_name)
     Inst, Term, Type, TyInst = impl.kterm.Inst, impl.kterm.Term, impl.ktype.Type, impl.ktype.TyInst
     forbidden = lambda nm: nm in oracle.keywords or nm in sig.consts   # noqa
     thy = impl.theory.thy
-    # rule name -> signature, for every primitive rule and a sample of macros
-    rules = ["theorem", "variable", "sorry", "assume", "implies_intr", "implies_elim", "reflexive", "symmetric", "transitive",
-             "combination", "equal_intr", "equal_elim", "subst_type", "substitution", "beta_conv", "beta_norm", "abstraction",
-             "forall_intr", "forall_elim", "apply_theorem", "apply_theorem_for", "rewrite_goal", "rewrite_fact", "cases", "induction"]
-    sigs = {}
-    for r in rules:
+    by_sig = {}
+    for r in ["theorem", "variable", "sorry", "subproof"] + sorted(impl.thm.primitive_deriv) + sorted(impl.theory.global_macros):
         try:
-            sigs[r] = thy.get_proof_rule_sig(r)
+            sg = thy.get_proof_rule_sig(r)
         except Exception:  # noqa
-            pass
-    for i in range(n):
-        names = G.Names(rng, forbidden)
-        rule = rng.choice(sorted(sigs))
-        s = sigs[rule]
-
-        def term(T=None, d=2):
-            gen = G.TermGen(rng, sig, names, allow_svar=False)
-            T = T or (gen.rand_type(1) if rng.random() < 0.5 else G.BoolType)
-            t = gen.gen(T, rng.randint(0, d), [])
-            G.check_welltyped(sig, t)
-            return t
-
-        def inst():
-            d = {}
-            for _ in range(rng.choice([0, 1, 2, 3])):
-                t = term()
-                d[rng.choice(["x", "y", "P", "f", "a", "n", "S"])] = t
-            return Inst(d)
-
-        if s is None:
-            args = None
-        elif s == str:
-            args = rng.choice(["conjI", "disjE", "my_thm"])
-        elif s == Term:
-            args = term()
-        elif s == Inst:
-            args = inst()
-        elif s == TyInst:
-            args = TyInst({k: gen_type(rng, sig, 2) for k in rng.sample(["a", "b", "c"], rng.randint(0, 2))})
-        elif s == Tuple[str, Type]:
-            args = (rng.choice(["x", "n1", "f"]), gen_type(rng, sig, 2))
-        elif s == Tuple[str, Term]:
-            args = (rng.choice(["conjI", "nat_induct"]), term())
-        elif s == Tuple[str, Inst]:
-            args = (rng.choice(["conjI", "nat_induct"]), inst())
-        elif s == List[Term]:
-            args = [term() for _ in range(rng.randint(1, 3))]
-        else:
             continue
+        by_sig.setdefault(sig_name(sg), []).append((r, sg))
+    sigs = {}
+    for k, lst in sorted(by_sig.items()):
+        keep = [x for x in lst if x[0] in ("theorem", "variable", "sorry", "subst_type", "substitution", "apply_theorem_for",
+                                           "apply_induct", "rewrite_goal", "assume", "forall_elim")][:3] or lst[:2]
+        for r, sg in keep:
+            sigs[r] = sg
+    ctx.coverage["item_signatures"] = sorted(by_sig)
+
+    def mk_term(names, T=None, d=2):
+        gen = G.TermGen(rng, sig, names, allow_svar=True)
+        T = T or (gen.rand_type(1) if rng.random() < 0.5 else G.BoolType)
+        t = gen.gen(T, rng.randint(0, d), [])
+        G.check_welltyped(sig, t)
+        return t
+
+    def mk_inst(names):
+        d = {}
+        for _ in range(rng.choice([0, 1, 2, 3])):
+            d[rng.choice(["x", "y", "P", "f", "a", "n", "S"])] = mk_term(names)
+        inst = Inst(d)
+        if rng.random() < 0.45:
+            for k in rng.sample(["a", "b", "c", "T1"], rng.randint(1, 2)):
+                inst.tyinst[k] = gen_type(rng, sig, 2)
+        r = rng.random()
+        if r < 0.04:
+            inst.var_inst[rng.choice(["u", "v"])] = mk_term(names)
+        elif r < 0.08:
+            inst.abs_name_inst["x"] = rng.choice(["y", "z1"])
+        return inst
+
+    def mk_args(s, names):
+        if s is None:
+            return True, None
+        if s == str:
+            return True, rng.choice(["conjI", "disjE", "my_thm"])
+        if s == Term:
+            return True, mk_term(names)
+        if s == Inst:
+            return True, mk_inst(names)
+        if s == TyInst:
+            return True, TyInst({k: gen_type(rng, sig, 2) for k in rng.sample(["a", "b", "c"], rng.randint(0, 2))})
+        if s == Tuple[str, Type]:
+            return True, (rng.choice(["x", "n1", "f"]), gen_type(rng, sig, 2))
+        if s == Tuple[str, Term]:
+            return True, (rng.choice(["conjI", "nat_induct"]), mk_term(names))
+        if s == Tuple[str, Inst]:
+            return True, (rng.choice(["conjI", "nat_induct"]), mk_inst(names))
+        if s == Tuple[str, Term, Term]:
+            return True, (rng.choice(["nat_induct", "list_induct"]), mk_term(names), mk_term(names, G.BoolType))
+        if s == List[Term]:
+            return True, [mk_term(names) for _ in range(rng.randint(1, 3))]
+        return False, None
+
+    def mk_item(names, depth):
+        rule = rng.choice(sorted(sigs))
+        ok, args = mk_args(sigs[rule], names)
+        if not ok:
+            ctx.count("item:unsupported-signature:%s" % sig_name(sigs[rule]))
+            return None
         th = None
         if rng.random() < 0.6:
-            hyps = [term(G.BoolType, 1) for _ in range(rng.choice([0, 0, 1, 2]))]
-            th = impl.thm.Thm(term(G.BoolType, 2), tuple(hyps))
+            hyps = [mk_term(names, G.BoolType, 1) for _ in range(rng.choice([0, 0, 1, 2]))]
+            th = impl.thm.Thm(mk_term(names, G.BoolType, 2), tuple(hyps))
         prevs = [rng.choice(["0", "1", "2.1", "0.3.1"]) for _ in range(rng.choice([0, 1, 2]))]
         item = impl.proof.ProofItem(rng.choice(["0", "3", "1.2", "0.0.1"]), rule, args=args, prevs=prevs, th=th)
-        canon = repr((rule, dump_args(args), dump_thm(th), prevs))
-        ctx.case(("item", canon), nontrivial=args is not None or th is not None)
-        ctx.count("item:%s" % sig_name(s))
+        ctx.count("item:%s" % sig_name(sigs[rule]))
+        if depth > 0 and rng.random() < 0.15:
+            sub = impl.proof.Proof()
+            for _ in range(rng.randint(1, 2)):
+                it = mk_item(names, depth - 1)
+                if it is not None:
+                    sub.items.append(it)
+            if sub.items:
+                item.subproof = sub
+                ctx.count("item:with-subproof")
+        return item
+
+    def flatten(item):
+        out = [item]
+        if item.subproof:
+            for it in item.subproof.items:
+                out += flatten(it)
+        return out
+
+    def export_parse(item, u):
+        """None if every exported line parses back to the corresponding item, else a description."""
+        data = None
+        try:
+            with impl.global_setting(unicode=u, highlight=False, line_length=None):
+                data = impl.api_export_proof_item(item)
+            flat = flatten(item)
+            if len(data) != len(flat):
+                return "exported %d lines for %d items" % (len(data), len(flat)), data
+            for d, it in zip(data, flat):
+                it2 = impl.quiet(impl.api_parse_proof_rule, dict(d))
+                if not item_eq(it, it2):
+                    return "line %r parses to a different item" % (d,), data
+            return None, data
+        except Exception as e:  # noqa
+            return "%s %s" % (type(e).__name__, (getattr(e, "err", None) or repr(e))[:200]), data
+
+    for i in range(n):
+        names = G.Names(rng, forbidden)
+        item = mk_item(names, 1)
+        if item is None:
+            continue
+        flat = flatten(item)
+        canon = repr([(it.rule, dump_args(it.args), dump_thm(it.th), [str(p) for p in it.prevs]) for it in flat])
+        ctx.case(("item", canon), nontrivial=item.args is not None or item.th is not None)
         impl.set_context(dict(names.name_T), dict(names.svar_T))
         for u in (False, True):
-            data = None
-            try:
-                with impl.global_setting(unicode=u, highlight=False, line_length=None):
-                    data = impl.printer.export_proof_item(item)[0]
-                item2 = impl.quiet(impl.parser.parse_proof_rule, dict(data))
-                ok = item_eq(item, item2)
-                detail = ""
-            except Exception as e:  # noqa
-                ok, detail = False, "%s %s" % (type(e).__name__, (getattr(e, "err", None) or repr(e))[:200])
-            if not ok:
-                ctx.violation("item-roundtrip:" + canon, "proof item %s exports as %r and does not parse back (%s), unicode=%s" % (canon, data, detail, u),
-                              {"kind": "item", "theory": sig.thy_name, "canon": canon, "seed_stream": "item/" + sig.thy_name, "index": i})
-                break
+            bad, data = export_parse(item, u)
+            if bad is None:
+                continue
+            # known: parts of an instantiation that have no concrete syntax; only if they explain the failure
+            comps = sorted({c for it in flat for c in inst_hidden_components(it.args)})
+            key = "item-roundtrip:" + canon
+            if comps:
+                stripped = strip_hidden(item, impl)
+                if export_parse(stripped, u)[0] is None:
+                    key = "inst-component-not-exported:" + comps[0]
+            ctx.violation(key, "proof item %s exports as %r and does not parse back (%s), unicode=%s" % (canon[:600], data, bad, u),
+                          {"kind": "item", "theory": sig.thy_name, "canon": canon, "seed_stream": "item/" + sig.thy_name, "index": i})
+            break
+
+
+def inst_hidden_components(a):
+    from kernel.term import Inst
+    out = []
+    if isinstance(a, Inst):
+        if a.var_inst:
+            out.append("var_inst")
+        if a.abs_name_inst:
+            out.append("abs_name_inst")
+    elif isinstance(a, (tuple, list)):
+        for x in a:
+            out += inst_hidden_components(x)
+    return out
+
+
+def strip_hidden(item, impl):
+    """Copy of the item (and its subproof) without var_inst / abs_name_inst in its instantiations."""
+    from kernel.term import Inst
+
+    def strip(a):
+        if isinstance(a, Inst):
+            b = Inst(dict(a.items()))
+            for k, v in a.tyinst.items():
+                b.tyinst[k] = v
+            return b
+        if isinstance(a, tuple):
+            return tuple(strip(x) for x in a)
+        if isinstance(a, list):
+            return [strip(x) for x in a]
+        return a
+    it = impl.proof.ProofItem(item.id, item.rule, args=strip(item.args), prevs=item.prevs, th=item.th)
+    if item.subproof:
+        it.subproof = impl.proof.Proof()
+        it.subproof.items = [strip_hidden(x, impl) for x in item.subproof.items]
+    return it
 
 
 def sig_name(s):
-    return getattr(s, "__name__", None) or str(s).replace("typing.", "")
+    if s is None or isinstance(s, type):
+        return getattr(s, "__name__", "None")
+    return str(s).replace("typing.", "").replace("kernel.term.", "").replace("kernel.type.", "")
 
 
 def dump_args(a):
@@ -750,7 +907,11 @@ def dump_args(a):
         return G.dump_term(a)
     if isinstance(a, Type):
         return G.dump_type(a)
-    if isinstance(a, (Inst, TyInst)):
+    if isinstance(a, Inst):
+        return "{%s | ty %s | var %s | abs %s}" % (", ".join("%s: %s" % (k, dump_args(v)) for k, v in sorted(a.items())),
+                                                  dump_args(TyInst(dict(a.tyinst))), sorted((k, dump_args(v)) for k, v in a.var_inst.items()),
+                                                  sorted(a.abs_name_inst.items()))
+    if isinstance(a, TyInst):
         return "{%s}" % ", ".join("%s: %s" % (k, dump_args(v)) for k, v in sorted(a.items()))
     if isinstance(a, (tuple, list)):
         return "[%s]" % ", ".join(dump_args(x) for x in a)
@@ -773,7 +934,13 @@ def args_eq(a, b):
     if isinstance(a, Type):
         return isinstance(b, Type) and G.ty_eq(a, b)
     if isinstance(a, (Inst, TyInst)):
-        return type(a) is type(b) and sorted(a.keys()) == sorted(b.keys()) and all(args_eq(a[k], b[k]) for k in a.keys())
+        if not (type(a) is type(b) and sorted(a.keys()) == sorted(b.keys()) and all(args_eq(a[k], b[k]) for k in a.keys())):
+            return False
+        if isinstance(a, Inst):     # ALL components of an instantiation
+            return args_eq(TyInst(dict(a.tyinst)), TyInst(dict(b.tyinst))) and \
+                sorted(a.var_inst) == sorted(b.var_inst) and all(args_eq(a.var_inst[k], b.var_inst[k]) for k in a.var_inst) and \
+                dict(a.abs_name_inst) == dict(b.abs_name_inst)
+        return True
     if isinstance(a, (tuple, list)):
         return isinstance(b, (tuple, list)) and len(a) == len(b) and all(args_eq(x, y) for x, y in zip(a, b))
     return a == b
@@ -826,7 +993,7 @@ def memo_texts(impl, t, variants, setting, saved=None):
             impl.print_term(v, other)
         texts["after-other-unicode-flag"] = impl.print_term(t, setting)
         if saved is not None:
-            impl.pprint.term_ast.update(saved)
+            impl.term_ast.update(saved)
             texts["after-whole-run"] = impl.print_term(t, setting)
     except Exception as e:  # noqa
         texts["error"] = repr(e)[:200]
@@ -840,7 +1007,7 @@ def stream_memo(ctx, impl, sig, oracle, n):
     from harness.props import c07_gen as G
     rng = ctx.rng("memo/" + sig.thy_name)
     forbidden = lambda nm: nm in oracle.keywords or nm in sig.consts   # noqa
-    saved = dict(impl.pprint.term_ast)
+    saved = dict(impl.term_ast)
     try:
         for i in range(n):
             names = G.Names(rng, forbidden)
@@ -864,7 +1031,7 @@ def stream_memo(ctx, impl, sig, oracle, n):
             else:
                 for hist, text in texts.items():
                     try:
-                        t2 = impl.quiet(impl.parser.parse_term, text)
+                        t2 = impl.quiet(impl.api_parse_term, text)
                         if not G.term_eq(t, t2):
                             bad = "text %r printed %s parses to a different term" % (text, hist)
                     except Exception as e:  # noqa
@@ -872,12 +1039,130 @@ def stream_memo(ctx, impl, sig, oracle, n):
                             bad = "text %r printed %s does not parse (%s)" % (text, hist, type(e).__name__)
                     break
             if bad:
-                cls = oracle.classify(t)
+                cls = oracle.classify(t, setting)
                 ctx.violation(cls or ("memo-history:" + G.dump_term(t)), "theory %s: %s: %s" % (sig.thy_name, G.dump_term(t)[:300], bad),
                               {"kind": "memo", "theory": sig.thy_name, "term": G.term_to_json(t), "variants": [G.term_to_json(v) for v in variants],
                                "setting": list(setting), "texts": texts})
     finally:
-        impl.pprint.term_ast.update(saved)
+        impl.term_ast.update(saved)
+
+
+def stream_cross_theory(ctx, impl, keywords, pairs, n):
+    """History independence ACROSS THEORIES.  Terms over theory A whose constants have the same
+    declared types in a larger theory B; bound names are often constants of B only (P1 in hoare) or
+    names whose printed variant is one.  Print everything in A, switch to B WITHOUT touching the memo
+    table, print again, switch back to A: in each theory the text must parse back to the term and must
+    be the text a fresh memo table gives in that theory."""
+    from harness.props import c07_gen as G
+    for thy_a, thy_b in pairs:
+        rng = ctx.rng("cross/%s/%s" % (thy_a, thy_b))
+        impl.load(thy_b)
+        sig_b = G.Sig(ctx.repo, thy_b, impl.api_parse_type)
+        impl.load(thy_a)
+        sig_a = G.Sig(ctx.repo, thy_a, impl.api_parse_type)
+        only_b = sorted(c for c in sig_b.consts if c not in sig_a.consts and re.fullmatch(r"[A-Za-z_][A-Za-z_0-9]*", c)
+                        and c not in keywords)
+        # constants of B that are variants <name><digits> of an ordinary name come first
+        only_b.sort(key=lambda c: (not re.fullmatch(r"[A-Za-z]+[0-9]+", c), c))
+        bound_special = only_b[:12] + [re.sub(r"[0-9]+$", "", c) for c in only_b[:6] if re.search(r"[0-9]+$", c)]
+        forbidden = lambda nm: nm in keywords or nm in sig_a.consts or nm in sig_b.consts   # noqa
+        oracle_a, oracle_b = Oracle(ctx, impl, sig_a, keywords), Oracle(ctx, impl, sig_b, keywords)
+        cases = []
+        tries = 0
+        while len(cases) < n and tries < 5 * n:
+            tries += 1
+            names = G.Names(rng, forbidden, bound_special=bound_special)
+            gen = G.TermGen(rng, sig_a, names)
+            T = gen.rand_type(1) if rng.random() < 0.4 else G.BoolType
+            t = gen.gen(T, rng.randint(2, 4), [])
+            if "Abs" not in G.dump_term(t):
+                continue
+            try:
+                G.check_welltyped(sig_a, t)
+                G.check_welltyped(sig_b, t)
+            except ValueError:
+                continue
+            cases.append((t, (rng.random() < 0.5, None, False)))
+        impl.clear_memo()
+
+        def phase(oracle, label, fresh):
+            out = []
+            for t, setting in cases:
+                if fresh:
+                    impl.clear_memo()
+                vars, svars = free_names(t)
+                impl.set_context(vars, svars)
+                try:
+                    text = impl.print_term(t, setting)
+                except Exception as e:  # noqa
+                    text = "print-raises:" + type(e).__name__
+                try:
+                    ok = G.term_eq(t, impl.quiet(impl.api_parse_term, text))
+                except Exception as e:  # noqa
+                    ok = False
+                out.append((text, ok))
+            return out
+        in_a = phase(oracle_a, "A", False)
+        impl.load(thy_b)
+        in_b = phase(oracle_b, "B-after-A", False)
+        fresh_b = phase(oracle_b, "B-fresh", True)
+        impl.load(thy_a)
+        back_a = phase(oracle_a, "A-after-B", False)
+        fresh_a = phase(oracle_a, "A-fresh", True)
+        for idx, (t, setting) in enumerate(cases):
+            ctx.case(("cross", thy_a, thy_b, G.dump_term(t)), nontrivial=True)
+            ctx.count("cross:%s->%s" % (thy_a, thy_b))
+            hist = {"in %s" % thy_a: in_a[idx], "in %s after %s" % (thy_b, thy_a): in_b[idx], "in %s, fresh memo" % thy_b: fresh_b[idx],
+                    "back in %s" % thy_a: back_a[idx], "in %s, fresh memo" % thy_a: fresh_a[idx]}
+            bad = None
+            if not (fresh_a[idx][1] and fresh_b[idx][1]):
+                continue        # not a history effect: the plain round trip fails (reported by the term streams of these theories)
+            if in_b[idx][0] != fresh_b[idx][0] or not in_b[idx][1]:
+                bad = "printed in %s after %s: %r (parses back: %s); with a fresh memo table: %r" % (
+                    thy_b, thy_a, in_b[idx][0], in_b[idx][1], fresh_b[idx][0])
+            elif back_a[idx][0] != fresh_a[idx][0] or in_a[idx][0] != fresh_a[idx][0] or not back_a[idx][1] or not in_a[idx][1]:
+                bad = "printed in %s: %r, again after visiting %s: %r (parses back: %s); fresh: %r" % (
+                    thy_a, in_a[idx][0], thy_b, back_a[idx][0], back_a[idx][1], fresh_a[idx][0])
+            if bad:
+                ctx.violation("memo-theory-history:%s->%s:%s" % (thy_a, thy_b, G.dump_term(t)),
+                              "history dependence across theories: %s: %s" % (G.dump_term(t)[:300], bad),
+                              {"kind": "cross", "theory": thy_a, "theory_b": thy_b, "term": G.term_to_json(t), "setting": list(setting),
+                               "history": {k: list(v) for k, v in hist.items()}})
+    impl.clear_memo()
+
+
+def stream_many_annotations(ctx, impl, sig, oracle):
+    """Large terms in which every conjunct needs its own type annotation (the annotation loop of
+    infer_printed_type runs once per annotation)."""
+    from harness.props import c07_gen as G
+    a = G.TVar("a")
+    atoms = []
+    if "nil" in sig.consts:
+        LA = G.TConst("list", a)
+        atoms.append(G.Const("equals", G.TFun(LA, LA, G.BoolType))(G.Const("nil", LA), G.Const("nil", LA)))
+    if "empty_set" in sig.consts:
+        SA = G.TConst("set", a)
+        atoms.append(G.Const("equals", G.TFun(SA, SA, G.BoolType))(G.Const("empty_set", SA), G.Const("empty_set", SA)))
+    if "zero" in sig.consts:
+        atoms.append(G.Const("equals", G.TFun(a, a, G.BoolType))(G.Const("zero", a), G.Const("zero", a)))
+    conj = G.Const("conj", G.TFun(G.BoolType, G.BoolType, G.BoolType))
+    # printing a term with k annotations costs about (k/40)^5 * 0.3 s (type inference is re-run per annotation):
+    # the quick tier stays below the old limit of 99 rounds, the thorough tier crosses it
+    big = ctx.tier == "thorough" and not ctx.coverage.get("many_annotations_big_done")
+    for n_atom, atom in enumerate(atoms):
+        for k in ([40, 101] if (big and n_atom == 0) else [40]):
+            t = atom
+            for _ in range(k - 1):
+                t = conj(atom, t)
+            G.check_welltyped(sig, t)
+            if k > 60:
+                ctx.coverage["many_annotations_big_done"] = True      # once per run: it costs about a minute
+                oracle.limit = 900
+            try:
+                oracle.check(t, [(False, None, False)] if k > 60 else [(False, None, False), (True, 80, True)], "many-annotations", nontrivial=True)
+            finally:
+                oracle.limit = 60
+            ctx.count("many-annotations")
 
 
 # =====================================================================================
@@ -886,6 +1171,10 @@ def stream_memo(ctx, impl, sig, oracle, n):
 QUICK_THEORIES = [("hoare", 500), ("interval_arith", 450), ("string", 150), ("set", 250)]
 THOROUGH_THEORIES = [("hoare", 4000), ("interval_arith", 4000), ("string", 1000), ("set", 2000), ("list", 1000), ("real", 1500),
                      ("function", 800), ("logic", 500), ("nat", 800), ("int", 800), ("expr", 400), ("gcl", 400), ("realintegral", 800)]
+
+
+CROSS_THEORIES = [("set", "hoare"), ("nat", "real"), ("list", "string")]
+CROSS_THEORIES_MORE = [("logic", "hoare"), ("function", "expr"), ("function", "gcl"), ("real", "interval_arith"), ("int", "hoare")]
 
 
 def known_keys(keywords):
@@ -911,7 +1200,8 @@ def run(ctx):
         ops, binders = read_operator_tables(ctx.repo)
         levels, terminals, rules = read_ladder(ctx.repo)
         from harness.props.c07_lean import gen_lean
-        if ctx.write_if_changed("Holpy/C07/Gen.lean", gen_lean(ops, binders, levels, terminals, rules)):
+        from harness.props.c07_lean import read_lambda_spelling
+        if ctx.write_if_changed("Holpy/C07/Gen.lean", gen_lean(ops, binders, levels, terminals, rules, read_lambda_spelling(ctx.repo))):
             ctx.log("Gen.lean regenerated (changed)")
     except AssertionError as e:
         ctx.broken("translate:c07:tables", str(e))
@@ -943,7 +1233,7 @@ def run(ctx):
         full = ctx.tier == "quick" or idx_thy < 4       # thorough: the first four theories at full scale, the rest at quick scale
         scale = ctx.scale if full else (lambda q, t: q)
         impl.load(thy_name)
-        sig = G.Sig(ctx.repo, thy_name, impl.parser.parse_type)
+        sig = G.Sig(ctx.repo, thy_name, impl.api_parse_type)
         oracle = Oracle(ctx, impl, sig, keywords)
         import time
         marks = [("start", time.time())]
@@ -964,10 +1254,13 @@ def run(ctx):
         stream_memo(ctx, impl, sig, oracle, scale(60, 600))
         marks.append(("memo", time.time()))
         stream_library(ctx, impl, sig, oracle, thy_name, ctx.scale(150, 100000))
+        stream_many_annotations(ctx, impl, sig, oracle)
         marks.append(("library", time.time()))
         correspondence(ctx, impl, sig, oracle, ops, binders, levels, scale(150, 2000))
         marks.append(("corr", time.time()))
         ctx.log("theory %s done: %s" % (thy_name, " ".join("%s=%.1fs" % (marks[i][0], marks[i][1] - marks[i - 1][1]) for i in range(1, len(marks)))))
+    stream_cross_theory(ctx, impl, keywords, CROSS_THEORIES if ctx.tier == "quick" else CROSS_THEORIES + CROSS_THEORIES_MORE,
+                        ctx.scale(60, 400))
     if ctx.tier == "thorough":
         # every library file in its own theory
         done = {t for t, _ in theories}
@@ -979,7 +1272,7 @@ def run(ctx):
             except Exception as e:  # noqa
                 ctx.count("library:theory-does-not-load")
                 continue
-            sig = G.Sig(ctx.repo, thy_name, impl.parser.parse_type)
+            sig = G.Sig(ctx.repo, thy_name, impl.api_parse_type)
             oracle = Oracle(ctx, impl, sig, keywords)
             stream_library(ctx, impl, sig, oracle, thy_name, 100000)
 
@@ -1001,7 +1294,7 @@ def replay_corpus(ctx, impl, keywords):
         corpus = json.load(f)
     for entry in corpus:
         impl.load(entry["theory"])
-        sig = G.Sig(ctx.repo, entry["theory"], impl.parser.parse_type)
+        sig = G.Sig(ctx.repo, entry["theory"], impl.api_parse_type)
         oracle = Oracle(ctx, impl, sig, keywords)
         t = G.term_from_json(entry["term"])
         try:
@@ -1021,7 +1314,7 @@ def replay(ctx, rp):
     levels, terminals, _ = read_ladder(ctx.repo)
     keywords = identifier_keywords(terminals)
     impl.load(r["theory"])
-    sig = G.Sig(ctx.repo, r["theory"], impl.parser.parse_type)
+    sig = G.Sig(ctx.repo, r["theory"], impl.api_parse_type)
     oracle = Oracle(ctx, impl, sig, keywords)
     kind = r.get("kind")
     if kind == "term":
@@ -1041,11 +1334,29 @@ def replay(ctx, rp):
         for k, v in texts.items():
             print("%s: %r" % (k, v))
         return len(set(texts.values())) != 1 or "error" in texts or oracle.roundtrip(t, setting)[0] is not None
+    if kind == "cross":
+        t = G.term_from_json(r["term"])
+        setting = tuple(r["setting"])
+        vars, svars = free_names(t)
+        impl.clear_memo()
+        impl.set_context(vars, svars)
+        in_a = impl.print_term(t, setting)
+        impl.load(r["theory_b"])
+        impl.set_context(vars, svars)
+        in_b = impl.print_term(t, setting)
+        try:
+            ok_b = G.term_eq(t, impl.quiet(impl.api_parse_term, in_b))
+        except Exception as e:  # noqa
+            ok_b = False
+        impl.clear_memo()
+        fresh_b = impl.print_term(t, setting)
+        print("in %s: %r\nthen in %s: %r (parses back: %s)\nfresh memo in %s: %r" % (r["theory"], in_a, r["theory_b"], in_b, ok_b, r["theory_b"], fresh_b))
+        return in_b != fresh_b or not ok_b
     if kind == "type":
         T = G.type_from_json(r["type"])
         text = impl.print_type(T, tuple(r["setting"]))
         try:
-            ok = G.ty_eq(T, impl.parser.parse_type(text))
+            ok = G.ty_eq(T, impl.api_parse_type(text))
         except Exception as e:  # noqa
             print("parse_type raises", repr(e)[:200])
             ok = False
@@ -1062,7 +1373,7 @@ def replay(ctx, rp):
         text = impl.print_thm(th, tuple(r["setting"]))
         print("printed:", repr(text))
         try:
-            th2 = impl.quiet(impl.parser.parse_thm, text)
+            th2 = impl.quiet(impl.api_parse_thm, text)
             ok = len(th2.hyps) == len(th.hyps) and all(G.term_eq(a, b) for a, b in zip(th2.hyps, th.hyps)) and G.term_eq(th2.prop, prop)
         except Exception as e:  # noqa
             print("parse_thm raises", repr(e)[:200])
@@ -1084,11 +1395,18 @@ MANIFEST = {
             "application, binders, if, atoms) the bracket rules of the printer are sufficient for a recursive-descent parser driven by the regenerated "
             "grammar ladder of syntax/parser.py, for every table/ladder pair satisfying an explicit decidable consistency condition that is discharged "
             "for the generated tables on every run (a priority or associativity changed in only one of the two files breaks it). The real printer and "
-            "parser are tied to the model by differential runs, and the property itself (terms, types, sequents, instantiations, proof items; 12 printer "
-            "settings; memo histories) is checked by round-trip on type-directed generated terms over the library signatures and on all library statements.",
+            "parser are tied to the model by differential runs, and the property itself (terms, types, sequents, instantiations with all their components, "
+            "proof items with subproofs; 12 printer settings; memo histories within one theory and across theory changes) is checked by round-trip on "
+            "type-directed generated terms over the library signatures and on all library statements. The theorems are about TOKEN lists: the binder "
+            "spellings of operator.py/pprint.py and the operator spellings are tied to the grammar by table_consistent, but no theorem relates the "
+            "printed TEXT to tokens.",
     "note": "Trusted: Lean kernel, propext/Classical.choice/Quot.sound; the harness generator, its own alpha-equality and type checker; the regex reader "
-            "of the grammar; Lark's LALR tables and contextual lexer (model parser compared, not proved equal). Not covered by a theorem: minimal type "
-            "annotations (infer_printed_type), literals, binder renaming, line breaking beyond whitespace-irrelevance of the lexer, highlight colours.",
+            "of the grammar; Lark's LALR tables and contextual lexer (model parser compared, not proved equal). Not covered by ANY theorem (run-time "
+            "round trip and model-lexer correspondence only): the step from printed text to tokens -- spacing, the '. ' terminal, unary vs binary '-', "
+            "keyword/identifier clashes, NameOK, line breaking (the former lex_drops_whitespace_partial was a one-step unfolding and is no longer claimed); "
+            "minimal type annotations (infer_printed_type), literals, binder renaming, highlight colours, types/sequents/instantiations/proof items. The "
+            "model lexer is a plain longest-match lexer, NOT Lark's contextual lexer: texts such as `INT UN S` (keywords read as identifiers where no "
+            "operator can stand) or `a|-b` parse in Lark and are rejected by the model; the comparison with Lark therefore only counts NameOK texts.",
     "design_ref": "DESIGN.md 4/C07",
 }
 FINDINGS = [
@@ -1096,6 +1414,13 @@ FINDINGS = [
      "what": "a variable or bound name spelled like the grammar keyword %r is printed unquoted and the text does not parse back "
              "(the concrete syntax has no quoting for identifiers; no small fix)" % k} for k in KEYWORD_NAMES
 ] + [
+    {"status": "known", "key": "internal-type-variable-name",
+     "what": "a schematic type variable spelled like the internal variables of type inference (?'_t0) makes infer_printed_type loop "
+             "(AssertionError) or is unified away when parsing: print_term(Abs('x', STVar('_t0'), Bound 0)) raises"},
+    {"status": "known", "key": "inst-component-not-exported:var_inst",
+     "what": "Inst.var_inst (used internally by the veriT reconstruction) has no concrete syntax: export_proof_item drops it"},
+    {"status": "known", "key": "inst-component-not-exported:abs_name_inst",
+     "what": "Inst.abs_name_inst (bound-name suggestions recorded by the matcher) has no concrete syntax: export_proof_item drops it"},
     {"status": "known", "key": "identifier-shadowed-by-constant",
      "what": "a free variable whose name is a constant of the current theory prints as that name and parses back as the constant "
              "(one namespace in the concrete syntax; no small fix)"},
@@ -1113,6 +1438,18 @@ FINDINGS = [
      "what": "the variant name chosen for a bound variable could be a constant of the theory (theory hoare: `P (%P. q P)` printed `P (%P1. q P1)` where P1 is a constant)"},
     {"status": "fixed", "key": "memo-history:nested-binder-names", "commit": "b9d00cb",
      "what": "the printer memo key contained only the names of outermost binders: after printing `!x. ?y. R x y`, the alpha-variant `!x. ?z. R x z` printed as the former"},
+    {"status": "fixed", "key": "memo-theory-history", "commit": "fixes/C07-10.patch",
+     "what": "the printer memo survived a change of theory: after load_theory('set') f (%P1. P1) printed 'f (%P1. P1)'; after set_context('hoare') "
+             "(P1 is a constant there) the cached text was returned and did not parse; a fresh table prints 'f (%P11. P11)'"},
+    {"status": "fixed", "key": "roundtrip:non-canonical-binary", "commit": "fixes/C07-11.patch",
+     "what": "of_nat (bit0 (bit1 zero)) :: real printed as (2::real), which parses to of_nat (bit0 one): binary numerals with leading zero bits "
+             "(also inside Char) were printed as literals"},
+    {"status": "fixed", "key": "print-raises:many-annotations", "commit": "fixes/C07-12.patch",
+     "what": "infer_printed_type gave up after 99 annotations: a conjunction of 101 copies of ([]::'a list) = [] raised AssertionError"},
+    {"status": "fixed", "key": "roundtrip:char-underscore", "commit": "fixes/C07-14.patch",
+     "what": "Char 95 prints as '_' and parse_term(\"'_'\") raised TypeError (the anonymous token \"_\" is filtered out of the parse tree)"},
+    {"status": "fixed", "key": "item-roundtrip:inst-tyinst", "commit": "fixes/C07-13.patch",
+     "what": "export_proof_item dropped the type part (Inst.tyinst) of an instantiation; it is now written {'a: T, x: t} and read back by parse_inst"},
     {"status": "fixed", "key": "roundtrip:char-string-literal", "commit": "31716be",
      "what": "characters/strings outside the grammar's literal syntax (`Char 32`, the empty string, \"a b\") were printed as quoted literals that do not parse"},
 ]
